@@ -238,19 +238,21 @@ def print_file_value(v):
 def print_file(ops, extra=None):
     """ops: list of {'o': [section, key], 'v': abstract}; consecutive ops of a section share a header."""
     lines = []
-    cur = None
     if extra == 'othersec':
         lines.append('[zz-not-a-section]')
         lines.append('renderer = zzwrong')
+    secs = []
     for op in ops:
-        sec, key = op['o']
-        if sec != cur:
-            lines.append('[%s]' % sec)
-            cur = sec
-        if op.get('v') is None:
-            continue                    # header only
-        for k, text in print_file_value(op['v']):
-            lines.append(('%s = %s' % (k or key, text)).rstrip())
+        if op['o'][0] not in secs:
+            secs.append(op['o'][0])
+    for cur in secs:                    # a section may appear only once per file; order inside it is kept
+        lines.append('[%s]' % cur)
+        for op in ops:
+            sec, key = op['o']
+            if sec != cur or op.get('v') is None:
+                continue                # v None: header only
+            for k, text in print_file_value(op['v']):
+                lines.append(('%s = %s' % (k or key, text)).rstrip())
     return '\n'.join(lines) + '\n'
 
 
@@ -447,6 +449,32 @@ class Model(object):
 
     def snapshot(self):
         return {'%s/%s' % (s, k): enc(self.read(s, k)) for (s, k) in self.state}
+
+    def snapshot_fast(self):
+        """Same result as snapshot(); options still holding their default are taken from a cached
+        snapshot of the defaults unless some value contains a reference (then everything is recomputed)."""
+        base = _default_snapshot(self.synth)
+        for v in self.state.values():
+            if (isinstance(v, str) and '%(' in v) or (isinstance(v, list) and any('%(' in x for x in v)):
+                return self.snapshot()
+        out = dict(base)
+        dflt = _DEFAULT_STATE[self.synth]
+        for (s, k), v in self.state.items():
+            if v != dflt[(s, k)] or type(v) is not type(dflt[(s, k)]):
+                out['%s/%s' % (s, k)] = enc(self.read(s, k))
+        return out
+
+
+_DEFAULT_SNAP = {}
+_DEFAULT_STATE = {}
+
+
+def _default_snapshot(synth):
+    if synth not in _DEFAULT_SNAP:
+        m = Model(synth)
+        _DEFAULT_STATE[synth] = dict(m.state)
+        _DEFAULT_SNAP[synth] = m.snapshot()
+    return _DEFAULT_SNAP[synth]
 
 
 def enc(v):
